@@ -64,12 +64,12 @@ def harnesses(tier, seed):
                            "complete_over": "all element values / masks / cut-off points (symbolic)",
                            "allow_unreachable": (["LEN + 1 <= N"] if rep == "heap" else []) +
                                                 (["sv.as_slice()[i] <= sv.as_slice()[i + 1]"] if (op == "sort" and n == 1 and rep == "inline") else []),
-                           "timeout": 240 if tier == "quick" else 900})
+                           "timeout": 400 if tier == "quick" else 900})
     for op, (fn, clause) in SINGLE.items():
         for n in (1, 2):
             hs.append({"name": "%su3_%s_n%d" % (MOD, op, n), "function": fn, "clause": "[N=%d] %s" % (n, clause),
                        "properties": ["C18"],
                        "bounded_by": ("Vec length <= %d" % L) if op == "from_vec" else ("lengths <= 3" if op == "cmp" else None),
                        "complete_over": "all element values (symbolic)",
-                       "timeout": 240 if tier == "quick" else 900})
+                       "timeout": 400 if tier == "quick" else 900})
     return hs
